@@ -32,11 +32,23 @@ Definition w_mapcar_values :=
   [EIf (EPrim PCar [EMapcar (ELambda ["x"] [EValues [ENil; EVar "x"]]) [EQuote (DList [DInt 1; DInt 2])]]) (I 1) (Some (I 2))].
 Lemma mapcar_values_refuted : fst (runM 60 w_mapcar_values) <> fst (runS 60 w_mapcar_values) /\ guardb 60 w_mapcar_values = false.
 Proof. differ. Qed.
-(* (let ((x 0)) (multiple-value-bind (a b) (setq x (values 1 2)) (list a b))) : setq returns every value *)
+(* repaired (repo_fixes/C01-15, C01-16): setq returns the one value it stored, a cond clause without forms the primary
+   value of its test.
+   (let ((x 0)) (multiple-value-bind (a b) (setq x (values 1 2)) (list a b)))   => (1 nil)
+   (multiple-value-bind (a b) (cond ((values 1 2))) (list a b))                 => (1 nil)   in every mode *)
 Definition w_setq_values :=
   [ELet [("x", I 0)] [EMvb ["a"; "b"] (ESetq [("x", EValues [I 1; I 2])]) [EPrim PList [EVar "a"; EVar "b"]]]].
-Lemma setq_values_refuted : fst (runM 60 w_setq_values) <> fst (runS 60 w_setq_values) /\ guardb 60 w_setq_values = false.
-Proof. differ. Qed.
+Definition w_cond_values := [EMvb ["a"; "b"] (ECond [(EValues [I 1; I 2], [])]) [EPrim PList [EVar "a"; EVar "b"]]].
+Example setq_cond_single_value :
+  forallb (fun m => match fst (run m 60 w_setq_values), fst (run m 60 w_cond_values) with
+                    | Ok (VList [VInt 1; VNil]), Ok (VList [VInt 1; VNil]) => true | _, _ => false end) [Slip; Ref; Chk] = true.
+Proof. vm_compute; reflexivity. Qed.
+(* in every mode the value of (setq x e) is never a multiple-values object built by e: it is the primary value, the
+   one that was stored *)
+Lemma setq_returns_stored : forall m ev st sc x e v st1 st2,
+  ev st sc e = (Ok v, st1) -> assign m st1 sc x (primary v) = (Ok tt, st2) ->
+  ev_setq m ev st sc [(x, e)] VNil = (Ok (primary v), st2).
+Proof. intros m ev st sc x e v st1 st2 H A. simpl. rewrite H. simpl. rewrite A. reflexivity. Qed.
 (* repaired (repo_fixes/C01-14): a form of or that is not the last is judged by, and contributes, its primary value.
    (multiple-value-bind (a b) (or (values nil 2) 5) (list a b)) => (5 nil) in every mode *)
 Definition w_or_values := [EMvb ["a"; "b"] (EOr [EValues [ENil; I 2]; I 5]) [EPrim PList [EVar "a"; EVar "b"]]].
